@@ -433,6 +433,11 @@ pub open spec fn lookup_target(v: PView, parent: u64, n: Seq<char>) -> Option<u6
 }
 """
 
+SLICE = r"""
+// `&v[a..]` on a Vec behind an Arc (Index<RangeFrom<usize>>): panics unless a <= len
+#[verifier::external_body] pub fn vx_slice_from<'a, T>(v: &'a Arc<Vec<T>>, a: usize) -> (r: &'a [T]) requires a <= v@.len() ensures r@ == v@.skip(a as int) { unimplemented!() }
+"""
+
 
 def tok(f, callees):
     f.rules = tuple(getattr(f, 'rules', ())) + ('R23',)
@@ -666,5 +671,69 @@ def unit(root='/repo'):
              ['load'])
     acc = Fn(PFS, FS, 'access', props=P7, canary=True, ensures=['r is Ok // [C07.pseudo.access.ok] every pseudo directory is accessible to everyone (mode rwxrwxrwx)'])
     items.append(Group('impl PseudoFs {', [ge, lk, ga, acc]))
+
+    # ---------------------------------------------------------------- do_readdir / readdir / readdirplus (C16)
+    DR_SIG = [('fn do_readdir(', 'fn do_readdir<A: AddEntry>('), ('add_entry: &mut dyn FnMut(DirEntry) -> Result<usize>', 'add_entry: &mut A')]
+    CALLS = 'new_calls(final(add_entry).log(), old(add_entry).log())'
+    ENTS = 'dir_entries(self.view(*old(hp)), parent)'
+    DR_RESUB = [(r'\badd_entry\(', 'add_entry.call(', 'call of the `&mut dyn FnMut` callback -> method call on the generic AddEntry object (ghost log)'),
+                (r'child\.name\.clone\(\)\.as_bytes\(\)', 'str_bytes(&child.name)', 'String::clone().as_bytes(): the UTF-8 bytes of a copy of the name -> model str_bytes'),
+                (r'for child in children\[offset as usize\.\.\]\.iter\(\) \{', 'let run = vx_slice_from(&children, offset as usize); for child in run.iter() {',
+                 'range indexing `&v[a..]` -> model vx_slice_from (in-bounds is its precondition, i.e. "cannot panic" is proved); the `for` iterator temporary bound to a name')]
+    DR_LOOP = """let ghost es = dir_entries(self.view(*hp), parent); let ghost log0 = add_entry.log(); let ghost kp = mkids(self.im(*hp), *hp, parent);
+        proof {
+            assert(log0.take(log0.len() as int) =~= log0);
+            assert(new_calls(add_entry.log(), log0) =~= Seq::<CallRec>::empty());
+            assert(es.len() == kp.len());
+            assert forall|j: int| 0 <= j < kp.len() implies es[j].ino == (#[trigger] kp[j]).ino && es[j].name == utf8_enc(kp[j].name@) by {
+                assert(mkids(self.im(*hp), *hp, parent)[j] == kp[j]); assert(self.im(*hp)[kp[j].ino] == kp[j]);
+            }
+        }
+        let ghost mut stopped = false;
+        for child in it: run.iter()
+            invariant_except_break !stopped,
+            invariant
+                *hp == *old(hp), log0 == old(add_entry).log(), extends(add_entry.log(), log0), run@ == kp.skip(offset as int), offset < kp.len(), es.len() == kp.len(),
+                es == dir_entries(self.view(*hp), parent), forall|j: int| 0 <= j < kp.len() ==> es[j].ino == (#[trigger] kp[j]).ino && es[j].name == utf8_enc(kp[j].name@),
+                !stopped ==> next == offset + 1 + it.index@ && new_calls(add_entry.log(), log0).len() == it.index@, // [C16.pseudo.do_readdir.offsets] entry i carries offset i + 1: resuming from it starts right after that entry
+                forall|j: int| 0 <= j < new_calls(add_entry.log(), log0).len() ==> call_matches(#[trigger] new_calls(add_entry.log(), log0)[j], es[offset + j]), // [C16.pseudo.do_readdir.entry] every child of the run is offered with its own number, offset and name, in order
+                forall|j: int| 0 <= j < new_calls(add_entry.log(), log0).len() ==> (#[trigger] new_calls(add_entry.log(), log0)[j]).ty == DT_DIR, // [C16.pseudo.do_readdir.type]
+                !stopped ==> forall|j: int| 0 <= j < new_calls(add_entry.log(), log0).len() ==> accepted(#[trigger] new_calls(add_entry.log(), log0)[j]),
+                stopped ==> delivered_ok(run_after(es, offset), new_calls(add_entry.log(), log0)) && new_calls(add_entry.log(), log0).last().ok == Some(0usize), // [C16.pseudo.do_readdir.stop] Ok(0) = no room: stop there, the entry is offered again by the next call
+        {
+            let ghost log1 = add_entry.log(); let ghost i = it.index@ as int;
+            proof { assert(*child == kp[offset + i]); }"""
+    DR_ARMS = """proof {
+                let calls1 = new_calls(log1, log0); let calls = new_calls(add_entry.log(), log0); let c = add_entry.log().last();
+                assert(calls =~= calls1.push(c));
+                assert(add_entry.log().take(log0.len() as int) =~= log1.take(log0.len() as int));
+                assert(call_matches(c, es[offset + i]));
+                assert(run_after(es, offset)[i] == es[offset + i]);
+            }"""
+    dr = tok(Fn(PFS, PP, 'do_readdir', props=P16, canary=True, ret_name='res', sig_subst=DR_SIG, body_resub=DR_RESUB,
+                requires=['self.wf(*old(hp))'],
+                ensures=['%s == %s // [C16.pseudo.do_readdir.frame] listing changes nothing' % (H1, H0),
+                         'extends(final(add_entry).log(), old(add_entry).log())',
+                         'size == 0 ==> res is Ok && %s.len() == 0 // [C16.pseudo.do_readdir.size0]' % CALLS,
+                         'size != 0 && !self.view(*old(hp)).nodes.contains_key(parent) ==> res is Err && res->Err_0.os_code() == Some(libc::ENOENT) && %s.len() == 0 // [C16.pseudo.do_readdir.unknown]' % CALLS,
+                         # the core: from offset 0 or the offset of any entry delivered before, the run that starts right after it is offered, each entry once, in order
+                         'size != 0 && self.view(*old(hp)).nodes.contains_key(parent) ==> delivered_ok(run_after(%s, offset), %s) // [C16.pseudo.do_readdir.resume] the entries after the resume offset are offered each once, in order, nothing after a refusal, nothing skipped; an offset at or beyond the end gives the empty reply' % (ENTS, CALLS),
+                         'forall|j: int| 0 <= j < %s.len() ==> (#[trigger] %s[j]).ty == DT_DIR // [C16.pseudo.do_readdir.type] every pseudo inode is a directory' % (CALLS, CALLS),
+                         'size != 0 && self.view(*old(hp)).nodes.contains_key(parent) ==> (res is Err <==> %s.len() > 0 && %s.last().ok is None) // [C16.pseudo.do_readdir.err] an error is the callback\'s own, handed on; the listing itself cannot fail' % (CALLS, CALLS)],
+                splices=[('||', 'closure', ENOENT_CL),
+                         ('^', 'after', 'proof { let l = add_entry.log(); assert(l.take(l.len() as int) =~= l); assert(new_calls(l, l) =~= Seq::<CallRec>::empty()); }'),
+                         ('let mut next = offset + 1;', 'before', 'proof { assert(offset < u64::MAX); } // [C16.pseudo.do_readdir.offset_overflow]'),
+                         ('let run = vx_slice_from(&children, offset as usize); for child in run.iter() {', 'replace', 'let run = vx_slice_from(&children, offset as usize);\n' + DR_LOOP),
+                         ('Ok(0) => break,', 'replace', 'Ok(0) => { ' + DR_ARMS.replace('\n', ' ') + ' proof { stopped = true; } break },'),
+                         ('Ok(_) => next += 1,', 'replace', 'Ok(_) => { ' + DR_ARMS.replace('\n', ' ') + ' next += 1 },'),
+                         ('Err(r) => return Err(r),', 'replace', 'Err(r) => { ' + DR_ARMS.replace('\n', ' ') + ' return Err(r) },')]),
+             ['load'])
+    RD_SIG = [('fn readdir(', 'fn readdir<A: AddEntry>('), ('add_entry: &mut dyn FnMut(DirEntry) -> Result<usize>', 'add_entry: &mut A'), ('_: u64', '_fh: u64')]
+    rd = tok(Fn(PFS, FS, 'readdir', props=P16, canary=True, ret_name='res', sig_subst=RD_SIG,
+                requires=['self.wf(*old(hp))'],
+                ensures=[c.replace('parent', 'inode').replace('do_readdir', 'readdir') for c in dr.ensures]),
+             ['do_readdir'])
+    items.append(Raw(SLICE))
+    items.append(Group('impl PseudoFs {', [dr, rd]))
     u = Unit('pseudofs', items, preludes=['base.rs', 'stdmodel.rs'], generic_tags={})
     return u
